@@ -58,7 +58,11 @@ def ctx():
 
 
 class Ctx(object):
+    fresh_mode = False     # True: every check on a fresh non-incremental solver (FP theory: the
+                           # tactic-based QF_FP solver is far faster than the incremental core)
+
     def __init__(self, prefix=(), model=None):
+        self.asserted = []
         self.solver = z3.Solver()
         self.solver.set('timeout', int(os.environ.get('PATHSYM_Z3_TIMEOUT_MS', '60000')))
         self.prefix = list(prefix)
@@ -114,8 +118,40 @@ class Ctx(object):
     def replaying(self):
         return len(self.trail) < len(self.prefix)
 
+    def _add(self, term):
+        self.asserted.append(term)
+        if not self.fresh_mode:
+            self.solver.add(term)
+
+    def _check_with(self, extra):
+        """satisfiability of the path constraint plus `extra`; -> (result, model or None)"""
+        t0 = time.time()
+        if self.fresh_mode:
+            sv = z3.Solver()
+            sv.set('timeout', int(os.environ.get('PATHSYM_Z3_TIMEOUT_MS', '60000')) * 5)
+            for a in self.asserted:
+                sv.add(a)
+            for a in extra:
+                sv.add(a)
+            r = sv.check()
+            mdl = sv.model() if r == z3.sat else None
+            reason = sv.reason_unknown() if r == z3.unknown else ''
+        else:
+            self.solver.push()
+            for a in extra:
+                self.solver.add(a)
+            r = self.solver.check()
+            mdl = self.solver.model() if r == z3.sat else None
+            reason = self.solver.reason_unknown() if r == z3.unknown else ''
+            self.solver.pop()
+        self.solver_s += time.time() - t0
+        self.checks += 1
+        if r == z3.unknown:
+            raise Inconclusive('z3 returned unknown: %s' % reason)
+        return r, mdl
+
     def _assert(self, term):
-        self.solver.add(term)
+        self._add(term)
         if not self.replaying():
             # a model handed over with the prefix satisfies everything asserted while the prefix
             # is being replayed; anything asserted later invalidates it
@@ -129,27 +165,20 @@ class Ctx(object):
         if z3.is_false(term):
             raise Vacuous()
         if self.replaying():
-            self.solver.add(term)     # known feasible: a later decision of the prefix was reached
+            self._add(term)     # known feasible: a later decision of the prefix was reached
             return
         self._assert(term)
-        if self._check() != z3.sat:
+        r, mdl = self._check_with([])
+        if r != z3.sat:
             raise Vacuous()
-        self.model = self.solver.model()
-
-    def _check(self, *extra):
-        t0 = time.time()
-        r = self.solver.check(*extra)
-        self.solver_s += time.time() - t0
-        self.checks += 1
-        if r == z3.unknown:
-            raise Inconclusive('z3 returned unknown: %s' % self.solver.reason_unknown())
-        return r
+        self.model = mdl
 
     def get_model(self):
         if self.model is None:
-            if self._check() != z3.sat:
+            r, mdl = self._check_with([])
+            if r != z3.sat:
                 raise Inconclusive('path constraint unsat at model request (engine bug)')
-            self.model = self.solver.model()
+            self.model = mdl
         return self.model
 
     def feasible(self, cond):
@@ -162,10 +191,7 @@ class Ctx(object):
         k = self.known.get(term.get_id())
         if k is not None:
             return k
-        self.solver.push()
-        self.solver.add(term)
-        r = self._check()
-        self.solver.pop()
+        r, _ = self._check_with([term])
         return r == z3.sat
 
     # ---- decisions -------------------------------------------------------------------------
@@ -190,9 +216,7 @@ class Ctx(object):
                                    'trail so far %r' % (i, term.sexpr()[:300], _DBG.get(ph),
                                                         [(t[0], t[1], t[3], _DBG.get(t[2]))
                                                          for t in self.trail[-4:]]))
-            self.solver.add(term if taken else z3.Not(term))
-            if i + 1 == len(self.prefix):
-                pass  # model supplied with the prefix (if any) stays valid
+            self._add(term if taken else z3.Not(term))
             self._record(term, tid, taken, forced, h, aux)
             return taken
         m = self.get_model()
@@ -201,16 +225,12 @@ class Ctx(object):
         if not taken and not z3.is_false(v):
             raise Inconclusive('model evaluation not boolean: %s' % v)
         other = z3.Not(term) if taken else term
-        self.solver.push()
-        self.solver.add(other)
-        r = self._check()
-        alt_model = self.solver.model() if r == z3.sat else None
-        self.solver.pop()
+        r, alt_model = self._check_with([other])
         forced = (r != z3.sat)
         if not forced:
             alt = list(self.trail) + [((not taken, False, h, aux, term.sexpr()[:120]) if DEBUG else (not taken, False, h, aux))]
             self.pending.append((alt, alt_model))
-        self.solver.add(term if taken else z3.Not(term))   # model stays valid
+        self._add(term if taken else z3.Not(term))   # model stays valid
         self._record(term, tid, taken, forced, h, aux)
         return taken
 
@@ -242,9 +262,10 @@ class Ctx(object):
                 # implied by the constraints so far, and any model of them yields it.
                 v = self.prefix[i][3]
                 if v is None or canon_hash(z3.simplify(term == v)) != self.prefix[i][2]:
-                    if self._check() != z3.sat:
+                    r, mdl = self._check_with([])
+                    if r != z3.sat:
                         raise Inconclusive('replayed prefix infeasible (engine bug)')
-                    v = self.solver.model().eval(term, model_completion=True).as_long()
+                    v = mdl.eval(term, model_completion=True).as_long()
             else:
                 v = self.get_model().eval(term, model_completion=True).as_long()
             if self.decide(term == v, aux=v):
